@@ -71,6 +71,9 @@ case "${1:-}" in
         [ $rc -ge 2 ] && exit 2
         /verif/.target/release/mc c18-compare "$tier"
         r=$?
+        # a violation found on one of the builds (or by the comparison) is a violation, also when
+        # the comparison could not be completed for every program (a run cut by its wall budget)
+        if [ $rc -eq 1 ] || [ $r -eq 1 ]; then exit 1; fi
         [ $r -gt $rc ] && rc=$r
         exit $rc ;;
     C08|C09|C14)
